@@ -49,7 +49,7 @@ func checkKeyLen(c keyLenCase, r *h.Rec) error {
 			backing := gen.Fill(gen.Mix(c.Seed, uint64(c.Len)), c.Len+c.Spare)
 			key = backing[:c.Len]
 		} else {
-			g = gen.NewGuarded(c.Len, true)
+			g = guarded(c.Len, true)
 			defer g.Free()
 			copy(g.B, gen.Fill(gen.Mix(c.Seed, uint64(c.Len)), c.Len))
 			key = g.B
@@ -158,7 +158,7 @@ func checkVec(c vecCase, r *h.Rec) error {
 	default:
 		return fmt.Errorf("malformed case %+v", c)
 	}
-	g := gen.NewGuarded(lanes*bs, true)
+	g := guarded(lanes*bs, true)
 	defer g.Free()
 	buf := g.B
 	copy(buf, bytes.Repeat(stdKey, lanes))
